@@ -46,6 +46,14 @@ CHECKS.update({
  "C13": ("Coq: a simulation's stored result depends only on (height, method) for every pair of histories; manager configuration depends on the last setters only, find_design is transparent, the nominal borehole height is not a physical input; histories on real GHE objects and seven metamorphic manager histories compared bit for bit (files included)",
          "the design result function itself is not computed in Coq; 'same object' = same construction height", "6 C13"),
 })
+CHECKS.update({
+ "C10": ("Coq: for every mesh size and coefficient set and ANY solution of the implicit step — heat conservation (telescoping induction), discrete minimum principle, monotonicity, and by induction over time steps a non-decreasing response that never falls below the initial state; geometric theorems (tiling, fluid thermal mass, layer resistances); the system handed to LAPACK is re-assembled in Coq and the returned vector checked as a certificate",
+         "conductances (logarithms) are data; the 0.5 % fine-mesh clause is computed with an independent solver only", "6 C10"),
+ "C11": ("Coq: joined axis strictly increasing / composition theorem on the reference description, radius-correction identity and additivity on the function REGENERATED from gfunction.py (ln abstract), h_eq identity; combine_sts_lts is translated on every run and compared with the real method; stored-height interpolation, real GHE g-functions, FLS anchor by computation",
+         "two laws of ln are premises; interp1d knot reproduction and the FLS/MIFT tolerances are computed only", "6 C11"),
+ "C17": ("Coq: over the complete finite domain of 192 configuration shapes, the keys the tool writes (regenerated from to_input()/write_input_file) satisfy required/additionalProperties of its own schemas (regenerated from schemas/*.json) and are exactly what the CLI loader reads (regenerated); real write -> validate -> load -> write round trips compared byte for byte",
+         "value-level validity (types, ranges, enums) and byte idempotence of deg<->rad are observed, not proved", "6 C17"),
+})
 NA = {}
 def main():
     checks = []
